@@ -29,6 +29,8 @@ pub fn quick_types() -> Vec<Ty> {
         t_iter(Ty::Int),
         Ty::func(vec![Ty::Int], Ty::Int),
         Ty::strukt(&[("a", Ty::Int)]),
+        t_iter(Ty::Str),
+        Ty::union([Ty::Tup(vec![Ty::Int, Ty::Int]), Ty::Tup(vec![Ty::Int, Ty::Int, Ty::Int])]),
     ]
 }
 
@@ -52,6 +54,10 @@ pub fn thorough_types() -> Vec<Ty> {
         Ty::union([Ty::strukt(&[("a", Ty::Int), ("b", Ty::Str)]), Ty::strukt(&[("a", Ty::Float)])]),
         Ty::func(vec![], Ty::Never),
         Ty::mutc(Ty::arr(Ty::Int)),
+        Ty::arr(Ty::Str),
+        Ty::arr(Ty::Float),
+        t_iter(Ty::Float),
+        Ty::strukt(&[("a", Ty::Int), ("b", Ty::Str)]),
     ]);
     v
 }
@@ -125,6 +131,7 @@ pub const RECIPES: &[Recipe] = &[
     r("[1]", false, 1),
     r("[1, \"a\"]", false, 1),
     r("[1.5]", false, 1),
+    r("[\"a\", \"b\"]", false, 1),
     r("[1, 2][2:]", false, 1),
     r("[1, 2.5][0:1]", false, 2),
     r("[[1], []]", false, 2),
@@ -134,6 +141,7 @@ pub const RECIPES: &[Recipe] = &[
     r("(1, 2)", false, 0),
     r("(1.5, 2.5)", false, 1),
     r("(1, \"a\", true)", false, 1),
+    r("(1, 2, 3)", false, 1),
     // cells
     r("mut 1", true, 0),
     r("mut 1.5", true, 1),
@@ -146,6 +154,8 @@ pub const RECIPES: &[Recipe] = &[
     r("[]~", true, 0),
     r("[1.5]~", true, 1),
     r("[true, false]~", true, 1),
+    r("[\"a\", \"b\"]~", true, 1),
+    r("[\"a\"][1:]~", true, 1),
     r("[1, 2]~ @ (v: int) -> string { return \"m\" }", true, 2),
     r("[\"a\"]~ @ (v: string) -> int { return 1 } ? (v: int) -> bool { return true }", true, 2),
     r("[1, \"a\"]~ ? int", true, 2),
